@@ -114,6 +114,21 @@ class C01(Check):
             ev = [(i + 1, 0, T.ack(w)) for i, w in enumerate(wants)]
             yield T.mk_case(content, ch, options=opts, kind=("bufshort",), events=ev)
 
+    extra_bins = ("c01send",)
+
+    def extra_checks(self, tier, rng, report):
+        # send failures towards the client: the retry loops against Tftp/SendFaults.v (only for C01 itself;
+        # C02/C07/C09 subclass this class)
+        if self.ident == "C01":
+            import c01_send
+            c01_send.send_checks(tier, rng, report)
+
+    def replay_extra(self, case):
+        if case.get("part") == "send-faults":
+            import c01_send
+            return c01_send.replay(case)
+        return None
+
     def impl(self, c):
         return T.run_impl(c)
 
@@ -132,6 +147,8 @@ class C01(Check):
 
     def show(self, c):
         d = dict(c)
+        if c.get("_extra") and "content" not in c:
+            return d
         d["content"] = c["content"].hex() if len(c["content"]) <= 64 else f"<{len(c['content'])} bytes: i%251 or random>"
         d["events"] = [(t, a, p.hex()) for (t, a, p) in c["events"][:50]] + (["..."] if len(c["events"]) > 50 else [])
         return d
